@@ -15,7 +15,7 @@ def lattice(e, tid):
     axes = []
     for v in vs:
         d = U.SPACES[v]
-        step = 128 if len(vs) == 1 and d <= 2 else (224 if d <= 2 else 320)
+        step = 128 if len(vs) == 1 and d <= 2 else (224 if d <= 2 or len(vs) == 1 else 320)
         for i in range(d):
             axes.append([x + OFFS[(tid + 3 * i + j) % 8] for j, x in enumerate(range(-896, 897, step))])
     pts = list(itertools.product(*axes))
